@@ -566,12 +566,17 @@ class Gen:
         if ks is None:
             names = sorted({p["name"] for s in self.m.doc["structures"] for p in s["properties"]})
             ks = names + [f"x-{n}-y" for n in names[::7]] + [n.upper() for n in names[::11]]
+            # ... and strings that are names of the protocol in another sense: method strings, type names, enumeration values
+            # (code may look a string value up in one of the package's tables)
+            methods = sorted(m_["method"] for m_ in self.m.doc["requests"] + self.m.doc["notifications"])
+            ks += methods + sorted(self.m.structs)[::9] + sorted(self.m.enums)[::5] + \
+                sorted({str(v["value"]) for e in self.m.doc["enumerations"] if e["type"]["name"] == "string" for v in e["values"]})[::3]
             self.o._key_like = ks
         return st.sampled_from(ks)
 
     def base(self, name: str) -> TV:
         if name == "string" or name == "RegExp":
-            if self.draw(st.integers(0, 7)) == 0:
+            if self.draw(st.integers(0, 5)) == 0:
                 return P(self.draw(self.key_like()), ("base", name))
             return P(self.draw(strings), ("base", name))
         if name in ("DocumentUri", "URI"):
